@@ -17,6 +17,7 @@ import CaddyModel.C12.StripLemmas
 import CaddyModel.C12.EffectLemmas
 import CaddyModel.C12.CasProof
 import CaddyModel.C12.IdResolve
+import CaddyModel.C12.SourceFacts
 import CaddyModel.C12.Witness
 
 namespace CaddyModel.C12
@@ -179,7 +180,8 @@ theorem if_match_mismatch_changes_nothing {env : Env} {m : Method} {path : Bytes
   subst hget
   simp [hne]
 
-/-- **no lost update.** Any number of clients run GET + conditional PATCH cycles on `p`,
+/-- **no lost update.** (The atomicity of a request that this transition system takes for
+    granted is tied to the source by `request_atomicity_matches_source`.) Any number of clients run GET + conditional PATCH cycles on `p`,
     interleaved in any order (every schedule, any length; a client may be arbitrarily stale,
     writes may be refused by the check, by the indexer or by the apps).  Then the
     acknowledged writes form a chain: each was computed from exactly the value the previous
